@@ -6,6 +6,7 @@ import ast
 from ..core import AnalysisError, call_name, dotted, kwarg, norm, walk_no_nested, has_starstar
 from ..guards import sites
 from ..registry import describe, rule
+from .. import tmatch as tm
 from ..util import calls_named, returns_of
 
 DBN = "pgmpy/models/DynamicBayesianNetwork.py"
@@ -22,6 +23,20 @@ describe(
     "fresh BeliefPropagation per slice and BeliefPropagation copies a junction tree it is given, so per-slice edits stay private.",
     ["that the interface algorithm's marginals equal those of the unrolled network (numeric, algorithmic)", "evidence handling across slices"],
 )
+
+
+def _deep(e, d, depth=0):
+    """inline single-definition local names recursively"""
+    import copy as _copy
+    if e is None or depth > 6:
+        return e
+
+    class R(ast.NodeTransformer):
+        def visit_Name(self, n):
+            if n.id in d and isinstance(n.ctx, ast.Load) and not any(isinstance(x, ast.Name) and x.id == n.id for x in ast.walk(d[n.id])):
+                return _deep(d[n.id], d, depth + 1)
+            return n
+    return R().visit(_copy.deepcopy(e))
 
 
 def _ctor_sites(repo, f):
@@ -61,30 +76,40 @@ def recreate(rc):
             # evidence order
             ev = kwarg(c, "evidence") or (c.args[3] if c.func.id == "TabularCPD" and len(c.args) > 3 else None)
             if ev is not None:
-                src = d.get(ev.id, ev) if isinstance(ev, ast.Name) else ev
+                src = _deep(ev, d)
                 t = norm(src, 300)
                 rc.ob(f"{q}: evidence = {t}")
                 if "get_parents(" in t or "predecessors(" in t or ".edges" in t:
                     rc.fail(f, c, f"{q}: the copied table keeps the source CPD's axis order but its parents are labelled in the graph's order `{t}`", construct=f"{q} evidence from graph")
-                elif "cpd.variables" not in t and "new_vars" not in t:
+                elif not any(isinstance(x_, ast.Attribute) and x_.attr == "variables" and isinstance(x_.value, ast.Name) for x_ in ast.walk(src)):
                     rc.fail(f, c, f"{q}: evidence order `{t}` is not derived from the source CPD's own variables", construct=f"{q} evidence source")
     # time shift keeps things together
     sh = repo.func(DI, "DBNInference._shift_factor")
     c = _ctor_sites(repo, sh)[0]
-    a = [norm(x) for x in c.args[:3]]
-    d = {n.targets[0].id: norm(n.value) for n in walk_no_nested(sh.node) if isinstance(n, ast.Assign) and isinstance(n.targets[0], ast.Name)}
-    ok = a[1:] == ["factor.cardinality", "factor.values"] and d.get(a[0], "") == "self._shift_nodes(factor.scope(), shift)"
-    rc.ob(f"_shift_factor: new scope {d.get(a[0])}, cardinality {a[1]}, values {a[2]}")
+    fa, sa_ = sh.params[1], sh.params[2]
+    _, bsh = tm.find(sh.node, "_NS = self._shift_nodes(_f.scope(), _s)", {"_f": fa, "_s": sa_})
+    ok = bsh is not None and tm.is_(c, "DiscreteFactor(_NS, _f.cardinality, _f.values, state_names=__SN)", bsh) is not None
+    rc.ob(f"_shift_factor: new scope = shifted own scope, own cardinality and values: {ok}")
     if not ok:
         rc.fail(sh, c, "a time-shifted factor must keep the scope ORDER, the cardinalities and the values of the source", construct="shift factor")
     sn = repo.func(DI, "DBNInference._shift_nodes")
-    if norm(returns_of(sn)[0].value) != "[(node[0], time_slice) for node in nodes]":
+    if tm.is_(returns_of(sn)[0].value, "[(_n[0], _t) for _n in _ns]", {"_ns": sn.params[1], "_t": sn.params[2]}) is None:
         rc.fail(sn, sn.node, "shifting nodes must keep their order and names and only replace the time slice", construct="shift nodes")
     # constant BN: names and edges shifted by the same offset
     cb = repo.func(DBN, "DynamicBayesianNetwork.get_constant_bn")
-    t = norm(cb.node, 100000)
-    okc = "str(var) + '_' + str(time + t_slice) for var, time in cpd.variables" in t and "str(u[0]) + '_' + str(u[1] + t_slice)" in t and "values=cpd.get_values()" in t \
-        and "evidence=new_vars[1:]" in t and "evidence_card=cpd.cardinality[1:]" in t and "variable=new_vars[0]" in t
+    ts = cb.params[1]
+    okc = False
+    for lp in [n for n in walk_no_nested(cb.node) if isinstance(n, ast.For) and tm.is_(n.iter, "self.cpds") is not None and isinstance(n.target, ast.Name)]:
+        B = {"_c": lp.target.id, "_ts": ts}
+        _, b1 = tm.find(lp, "_NV = [str(_v) + '_' + str(_t + _ts) for _v, _t in _c.variables]", B)
+        if b1 is None:
+            continue
+        for cc in [x for x in ast.walk(lp) if isinstance(x, ast.Call) and call_name(x) == "TabularCPD"]:
+            kw = {k.arg: k.value for k in cc.keywords}
+            okc = okc or (tm.is_(kw.get("variable"), "_NV[0]", b1) is not None and tm.is_(kw.get("variable_card"), "_c.cardinality[0]", b1) is not None
+                          and tm.is_(kw.get("values"), "_c.get_values()", b1) is not None and tm.is_(kw.get("evidence"), "_NV[1:]", b1) is not None
+                          and tm.is_(kw.get("evidence_card"), "_c.cardinality[1:]", b1) is not None)
+    okc = okc and tm.has(cb.node, "_E = [(str(_u[0]) + '_' + str(_u[1] + _ts), str(_w[0]) + '_' + str(_w[1] + _ts)) for _u, _w in self.edges()]", {"_ts": ts})
     rc.ob(f"get_constant_bn: variables/edges renamed with one offset, table and evidence taken from the CPD itself: {okc}")
     if not okc:
         rc.fail(cb, cb.node, "the constant network must expose each template CPD unchanged (own table, own evidence order, consistently renamed variables)", construct="constant bn")
@@ -94,19 +119,23 @@ def recreate(rc):
 def engines(rc):
     repo = rc.repo
     f = repo.func(DI, "DBNInference.forward_inference")
-    loops = [n for n in walk_no_nested(f.node) if isinstance(n, ast.For) and "range(1, time_range + 1)" in norm(n.iter)]
+    loops = [n for n in walk_no_nested(f.node) if isinstance(n, ast.For) and tm.is_(n.iter, "range(1, _TR + 1)") is not None]
     if not loops:
         raise AnalysisError("forward_inference: slice loop not found")
     lp = loops[0]
-    fresh = [n for n in ast.walk(lp) if isinstance(n, ast.Assign) and norm(n.value) == "BeliefPropagation(self.one_and_half_junction_tree)"]
+    fresh = [n for n, _ in tm.find_all(lp, "_BP = BeliefPropagation(self.one_and_half_junction_tree)")]
     upd = [n for n in ast.walk(lp) if isinstance(n, ast.Call) and call_name(n) == "_update_belief"]
     rc.ob(f"forward_inference: per-slice engines {len(fresh)}, belief updates {len(upd)}")
     if not fresh:
         rc.fail(f, lp, "every time slice must start from a fresh BeliefPropagation over the 1.5-slice junction tree", construct="fresh engine per slice")
     elif upd and fresh[0].lineno > upd[0].lineno:
         rc.fail(f, lp, "the fresh engine must be created before the interface potential is multiplied in", construct="engine order")
+    elif upd and not all(dotted(u_.args[0]) == dotted(fresh[0].targets[0]) for u_ in upd):
+        rc.fail(f, lp, "the interface potential must be multiplied into the fresh engine of this slice", construct="engine used")
     b = repo.func(DI, "DBNInference.backward_inference")
-    if "mid_bp = BeliefPropagation(self.one_and_half_junction_tree)" not in norm(b.node, 100000):
+    bl = [n for n in walk_no_nested(b.node) if isinstance(n, ast.For) and tm.is_(n.iter, "range(_TR, 0, -1)") is not None]
+    okb = bool(bl) and bool(tm.find_all(bl[0], "_BP = BeliefPropagation(self.one_and_half_junction_tree)"))
+    if not okb:
         rc.fail(b, b.node, "backward pass: a fresh engine per slice", construct="fresh engine backward")
     rc.ob("backward_inference: fresh engine per slice")
     init = repo.func(EI, "BeliefPropagation.__init__")
@@ -116,9 +145,11 @@ def engines(rc):
     if not ok:
         rc.fail(init, init.node, "BeliefPropagation must work on a private copy of a junction tree it is given (DBN inference edits its factors per slice)", construct="private junction tree")
     u = repo.func(DI, "DBNInference._update_belief")
+    bp_ = u.params[1]
     tu = norm(u.node, 100000)
-    oku = "belief_prop.junction_tree.remove_factors(old_factor)" in tu and "belief_prop.junction_tree.add_factors(new_factor)" in tu and "belief_prop.calibrate()" in tu \
-        and "self.one_and_half_junction_tree" not in tu and "self.start_junction_tree" not in tu
+    _, bo = tm.find(u.node, "_OF = _bp.junction_tree.get_factors(_cl)", {"_bp": bp_, "_cl": u.params[2]})
+    oku = bo is not None and tm.has(u.node, "_bp.junction_tree.remove_factors(_OF)", bo) and tm.find(u.node, "_bp.junction_tree.add_factors(_NF)", bo)[1] is not None \
+        and tm.has(u.node, "_bp.calibrate()", bo) and "self.one_and_half_junction_tree" not in tu and "self.start_junction_tree" not in tu
     if not oku:
         rc.fail(u, u.node, "belief updates must edit only the given engine's private junction tree and re-calibrate it", construct="update belief")
     rc.ob("_update_belief edits only the engine's own junction tree, then calibrates")
